@@ -11,6 +11,7 @@ CONSTANTS
   ContentsC = {"one"}
   FlagsC = {FALSE}
   AbsC = {FALSE}
+  PicC = {"png"}
   KeepC = {"only"}
   LastC = {}
   Design = "asbuilt"
